@@ -101,6 +101,10 @@ func main() {
 			box1 = time.Duration(cfg.BudgetS) * time.Second * 4 / 10
 			box2 = time.Duration(cfg.BudgetS) * time.Second * 6 / 10
 		}
+		if v := os.Getenv("C06_DEPTH"); v != "" { // debugging aid
+			fmt.Sscan(v, &d1)
+			d2 = d1
+		}
 		searchHistories(cfg, r, "histories", false, d1, cfg.Start.Add(box1))
 		searchHistories(cfg, r, "histories-cluster", true, d2, cfg.Start.Add(box2))
 	}
